@@ -410,6 +410,8 @@ def _check_composite(case, obs):
                 base_e = max(x["pc_end"] for lw in done for x in lw)
                 starts = {base_s} | {x["pc_start"] for x in optional if x["pc_start"] < base_s}
                 ends = {base_e} | {x["pc_end"] for x in optional if not x.get("cancelled") and base_e < x["pc_end"] <= raised + TOL}
+                # (a response whose headers were in by then had signalled a first, preliminary end)
+                ends |= {x["pc_header_end"] for x in optional if x.get("pc_header_end") is not None and base_e < x["pc_header_end"] <= raised + TOL}
                 got_end = s.request_start + s.service_time
                 obs.check(any(abs(s.request_start - v) <= TOL for v in starts), "context-start-not-earliest",
                           f"client {ci} iteration {k} (a sub-request failed at {raised}): request_start {s.request_start}, admissible earliest sub-request starts {sorted(starts)}")
